@@ -8,7 +8,7 @@ from ..cfg import NORMAL, Node, handler_classes
 from ..core import Ctx
 from ..flow import names_in
 from ..model import AnalysisError, FunctionInfo, norm_text
-from .common import (owner_tops, cleanup_in_reraising_handler, branch_nodes, edge_target, escaping_after, handler_always_raises, handler_exits, handler_key,
+from .common import (owner_tops, judged_in_callers, cleanup_in_reraising_handler, branch_nodes, edge_target, escaping_after, handler_always_raises, handler_exits, handler_key,
                      handler_nodes, hint_write_nodes, hint_writers, in_handler, is_const, kwarg,
                      normal_continuation, reachable_from)
 
@@ -95,6 +95,10 @@ def check(ctx: Ctx) -> None:
         o.rule = "C04.R7"
     ctx.rule_text["C04.R7"] = ctx.rule_text.pop("C08.R3")
     ctx.floors["C04.R7"] = ctx.floors.pop("C08.R3")
+    # "each file referenced by any retained snapshot is still present": only the sanctioned owners delete - a purge / sweep
+    # step added elsewhere (maintenance API, begin_transaction, __init__) deletes on its own judgement, outside the rollback rules
+    from .c09 import r3 as c09_r3
+    ctx.shared(c09_r3, "C09.R3", "C04.R8", "files of retained snapshots survive failed commits only if nobody else deletes")
 
 
 # ----------------------------------------------------------------------- R1
@@ -399,7 +403,7 @@ def r5(ctx: Ctx) -> None:
     if len(fns) < 15:
         raise AnalysisError(f"commit path has only {len(fns)} functions - call graph broken")
     for f in fns:
-        if ctx.prog.is_transparent(f):
+        if judged_in_callers(ctx, f):
             continue  # a helper introduced later: its handlers are judged where it is inlined (in its callers)
         for hn in handler_nodes(ctx, f):
             if hn.id not in ctx.cfg(f).reachable():
